@@ -1,13 +1,14 @@
 #!/bin/bash
 # seed_eval2.sh <SEEDID> <PROP>... : like seed_eval.sh but in the scratch environment of evalenv.sh
+T=${EVAL_TAG:-}
 sid=$1; shift
 src=/tmp/seed_out/$sid; [ -d $src ] || src=/verif/seeded/$sid
-git -C /tmp/evalrepo checkout -q -- . ; git -C /tmp/evalrepo apply $src/patch.diff || { echo "[$sid] patch does not apply"; exit 2; }
-cd /tmp/evalverif
+git -C /tmp/evalrepo$T checkout -q -- . ; git -C /tmp/evalrepo$T apply $src/patch.diff || { echo "[$sid] patch does not apply"; exit 2; }
+cd /tmp/evalverif$T
 for id in "$@"; do
   s=$(date +%s)
-  VERIF_SEED=${VERIF_SEED:-1} ./vf check $id quick > /tmp/eval-$sid-$id.log 2>&1; rc=$?
+  VERIF_SEED=${VERIF_SEED:-1} ./vf check $id quick > /tmp/eval$T-$sid-$id.log 2>&1; rc=$?
   e=$(date +%s)
-  echo "[$sid] $id rc=$rc $((e-s))s :: $(grep -m1 '^VIOLATION' /tmp/eval-$sid-$id.log | sed 's|/tmp/evalverif|/verif|')"
+  echo "[$sid] $id rc=$rc $((e-s))s :: $(grep -m1 '^VIOLATION' /tmp/eval$T-$sid-$id.log | sed "s|/tmp/evalverif$T|/verif|")"
 done
-git -C /tmp/evalrepo checkout -q -- .
+git -C /tmp/evalrepo$T checkout -q -- .
